@@ -408,9 +408,12 @@ for mi in range(nhelp_mat):
                     for unit in ("stress", "displacement"):
                         for fc in (True, False):
                             D = "C" if fc else "R"
+                            # the helpers read the unit case-insensitively (unit.lower()): every accepted spelling means the same
+                            spelled = unit if rng.random() < 0.6 else str(rng.choice([unit.capitalize(), unit.upper()]))
+                            chk.count(unit_spelling="lower-case" if spelled == unit else "capitalised")
                             kw = dict(interface_kind=KINDS[kind], material_inc=m_inc, mode_inc=MODES[m_in],
                                       mode_out=MODES[m_out], angles_inc=alphas.copy(), force_complex=fc,
-                                      unit=unit)
+                                      unit=spelled)
                             try:
                                 if helper == "tr":
                                     got = model.transmission_at_interface(material_out=m_oth, **kw)
